@@ -60,6 +60,18 @@ def c07_runs(tier):
 
 
 PROPS = {
+    "C02": {
+        "engine": "rapidcheck",
+        "technique": "reference-model comparison over rapidcheck-generated (command table, message) pairs: effective headers computed from the written text, first-match lookup with the independent matcher of C03, compared with the handler/error trace of the real parser",
+        "level": "random tree-shaped command tables of 3..10 patterns (shared prefixes, optional and numeric keywords, common commands, "
+                 "overlapping and duplicate patterns) x well-formed messages of 1..6 units whose headers are spellings of entries written "
+                 "absolutely, with leading colon or relative to the preceding unit, undefined headers and common commands, with optional leading white space and 0..2 parameters",
+        "level_note": "all four build configurations; the -113 text is only required to contain the header as written; numeric suffixes are compared when the reference matching is unique",
+        "design_ref": "DESIGN.md section 4, C02",
+        "runs": simple("c02", cfgs=("default", "noinfo", "heap", "dtostre")),
+        "rule": "case = (table, message), distinct by hash; non-trivial = message of >= 2 units in which at least one unit's effective header differs from its written header",
+        "assumptions": COMMON_ASSUME + ["messages are well formed; empty and ill-formed units belong to C08/C09/C01"],
+    },
     "C04": {
         "engine": "rapidcheck + enumeration",
         "technique": "grammar-based generation of 488.2 numeric literals with a structural oracle (expected value computed from the generator's own structure: correctly rounded strtod/strtof of the canonical text, exact integers, golden unit table)",
